@@ -134,10 +134,15 @@ def main():
         targets = list(cfg["lean_modules"]) + ["hermes_driver"]
         rc, out = sh(["lake", "build"] + targets, cwd=LEAN, timeout=3000)
         lean_ok = rc == 0
+        driver_ok = lean_ok
         if not lean_ok:
             errs = [l for l in out.splitlines() if "error" in l.lower()]
             failures.append(("proof", "lean:build", "Lean build failed — a theorem (or a regenerated fact it depends on) no longer checks:\n" + "\n".join(errs[:40]),
                              {"theorem_or_module": errs[:10], "log_tail": out[-4000:]}))
+            # the model driver needs the models only: if it still builds, the failing-input search on the
+            # implementation (and the correspondence) run although a theorem no longer checks
+            rc2, out2 = sh(["lake", "build", "hermes_driver"], cwd=LEAN, timeout=3000)
+            driver_ok = rc2 == 0
 
     # ------------------------------------------------------------------ 2. proof stage
     declared = []
@@ -190,7 +195,7 @@ def main():
 
     # ------------------------------------------------------------------ 3+4. harness
     res = None
-    if harness_ok and lean_ok:
+    if harness_ok and driver_ok:
         res_path = os.path.join(VERIF, "evidence", ".%s_%d.harness.json" % (prop, os.getpid()))
         cmd = [os.path.join(HARNESS, "bin", "check"), "-prop", prop, "-tier", tier, "-seed", str(seed), "-out", res_path]
         if replay_in:
